@@ -86,7 +86,8 @@ def real_build(order_idx, via="typeset"):
             else:
                 order = list(order_idx)
                 rg, bg = build_graph(types)
-                root = next(nx.topological_sort(rg))
+                from visions.typesets import typeset as tsm
+                root = getattr(tsm, "find_root_node", lambda g: next(nx.topological_sort(g)))(rg)
                 tys = sorted(st["idx"][t] for t in rg.nodes)
         except Exception as e:  # noqa
             code = {"KeyError": 1, "ValueError": 2, "NetworkXError": 5, "StopIteration": 6, "NetworkXUnfeasible": 7}.get(type(e).__name__, 9)
